@@ -392,7 +392,7 @@ func profileFor(prop string) Profile {
 		p.Inject = 0
 	case "C05":
 		p.RandomOutCfg = true
-		p.OutIntervals = []int{1, 1, 1, 2, 3, 7, 10, 30, 365}
+		p.OutIntervals = []int{1, 1, 1, 2, 3, 7, 10, 30, 365, 0}
 		p.Inject = 0
 		p.Years = [2]int{1, 4}
 	case "C10":
